@@ -531,6 +531,9 @@ pub struct RunLog {
     pub findings: Vec<(String, String)>,
     pub probes: usize,
     pub outputs_closed: bool,
+    /// call number of the first verdict on which a runner would retire the block: a wait on
+    /// an ended input that holds less than what is asked for
+    pub retirable_since: Option<usize>,
 }
 
 pub struct DriveOpts {
@@ -548,11 +551,14 @@ pub struct DriveOpts {
     pub verdict_checks: bool,
     /// drop the downstream ends after this many schedule steps
     pub close_outputs_at: Option<usize>,
+    /// close the inputs as soon as everything was fed (the block may still be clogged)
+    pub close_early: bool,
 }
 impl Default for DriveOpts {
     fn default() -> Self {
         Self {
             close_inputs: true,
+            close_early: false,
             max_calls: 60_000,
             probe: false,
             drain_feed: Sz::All,
@@ -838,6 +844,7 @@ pub fn drive(built: &mut Built, schedule: &[Step], opts: &DriveOpts) -> RunLog {
         findings: Vec::new(),
         probes: 0,
         outputs_closed: false,
+        retirable_since: None,
     };
     let keep_calls = opts.keep_calls;
     let nin = built.ins.len().max(1);
@@ -863,6 +870,27 @@ pub fn drive(built: &mut Built, schedule: &[Step], opts: &DriveOpts) -> RunLog {
         log.flags.call_with_input_short |= in_short;
         log.flags.call_both_short |= in_short && out_short;
         log.flags.peer_gone_call |= obs.in_closed.iter().any(|c| *c) || obs.out_closed.iter().any(|c| *c);
+        // a runner retires a block that waits on an ended input holding less than it asks for:
+        // from then on the block must not be able to produce anything any more
+        if let Some(since) = log.retirable_since {
+            if obs.produced.iter().any(|p| *p > 0) && !log.findings.iter().any(|f| f.0 == "premature-retirement") {
+                log.findings.push((
+                    "premature-retirement".to_string(),
+                    format!(
+                        "call #{since} reported a wait on an ended input that held less than it asked for (a runner retires the block on that), yet call #{} produced {:?} more output units",
+                        log.ncalls, obs.produced
+                    ),
+                ));
+            }
+        } else if obs.verdict == Verdict::WaitStream {
+            if let Some((id, need, _)) = obs.named {
+                if let Some(i) = built.ins.iter().position(|p| p.id() == id) {
+                    if built.ins[i].is_closed() && built.ins[i].buffered() < need {
+                        log.retirable_since = Some(log.ncalls);
+                    }
+                }
+            }
+        }
         let stop = match &obs.verdict {
             Verdict::Eof => {
                 log.eof_at = Some(log.ncalls);
@@ -980,6 +1008,12 @@ pub fn drive(built: &mut Built, schedule: &[Step], opts: &DriveOpts) -> RunLog {
                 }
             }
         }
+        if opts.close_early && opts.close_inputs && !closed && !built.ins.is_empty() && built.ins.iter().all(|p| p.pending() == 0) {
+            for p in built.ins.iter_mut() {
+                p.close();
+            }
+            closed = true;
+        }
         if closed {
             log.calls_after_close += 1;
         }
@@ -996,7 +1030,14 @@ pub fn drive(built: &mut Built, schedule: &[Step], opts: &DriveOpts) -> RunLog {
         if log.calls.iter().rev().take(1 + log.ncalls - before_probe).any(|c| c.activity()) {
             moved = true;
         }
-        if moved {
+        if std::env::var_os("VERIF_DEBUG_DRIVE").is_some() {
+            let c = log.calls.last().unwrap();
+            eprintln!("drain: ncalls={} closed={closed} moved={moved} quiet={quiet} verdict={:?} consumed={:?} produced={:?}", log.ncalls, c.verdict, c.consumed, c.produced);
+        }
+        // with the input writers gone, consumption is not observable any more: a block that
+        // answers Again is taken at its word (bounded below)
+        let claims_more = closed && opts.close_early && log.calls.last().map(|c| c.verdict == Verdict::Again).unwrap_or(false);
+        if moved || claims_more {
             quiet = 0;
         } else {
             quiet += 1;
@@ -1013,7 +1054,7 @@ pub fn drive(built: &mut Built, schedule: &[Step], opts: &DriveOpts) -> RunLog {
                 break;
             }
         }
-        if closed && log.calls_after_close > 40 {
+        if closed && !opts.close_early && log.calls_after_close > 40 {
             break;
         }
         if log.ncalls >= opts.max_calls {
